@@ -38,7 +38,8 @@ class Fn:
 
     def __init__(self, cname, tu, name, flt=None, select=None, kinds=('CXXMethodDecl', 'FunctionDecl', 'CXXConstructorDecl'),
                  self_struct=None, types=(), calls=(), members=(), hooks=(), stmt_hooks=(), aggregates=(),
-                 ret=None, lambda_index=None, extra_params=(), post=None, uf_float=True, opaque=(), lambda_select=None, dtors=(), captures=False, optional=False):
+                 ret=None, lambda_index=None, extra_params=(), post=None, uf_float=True, opaque=(), lambda_select=None, dtors=(), captures=False, optional=False, ref_member_pointers=False):
+        self.ref_member_pointers = ref_member_pointers   # constructors: reference members are pointer fields of the C model
         self.lambda_select = lambda_select
         self.optional = optional      # the function (a lambda) may legitimately be absent from the current source
         self.uf_float = uf_float
@@ -87,6 +88,7 @@ class Fn:
             raise ExtractionError(f'{self.cname}: captures=True without lambda_index')
         P = cxx2c.Printer(self.cname, self.types, self.calls, self.members, self.hooks, self.self_struct,
                           self.aggregates, self.stmt_hooks, self.uf_float, opaque=self.opaque, dtors=self.dtors)
+        P.ref_member_pointers = self.ref_member_pointers
         P.default_file = loc.get('file') or loc.get('expansionLoc', {}).get('file') or loc.get('spellingLoc', {}).get('file') or astload.resolve_tu(self.tu)
         P.field_init = lambda cls, fld, d=d: (astload.field_initializer(self.tu, cls, fld) or
                                                (astload.field_default_init(self.tu, d, fld) if d.get('kind') == 'CXXConstructorDecl' else None))
